@@ -18,7 +18,6 @@ import verif
 
 ck = verif.Check("C18")
 rng = ck.rng
-pr = ck.prove()
 
 ALPHA = "00616280ff"
 ALPHA_BYTES = [0x00, 0x61, 0x62, 0x80, 0xFF]
@@ -162,8 +161,13 @@ for k, ls in enumerate(parts_lines):
     open(p, "w").write("\n".join(ls) + "\n")
     casefiles.append(p)
 
-exe, log = ck.build_cpp("c18_harness", ["harness/C18/sv_harness.cpp"], flags=FLAGS)
-drv, dlog = ck.ocaml_driver("C18")
+# the C++ harness is compiled while Coq re-checks the theorems (independent; the OCaml driver build shares coq/ with the proof
+# build and therefore stays sequential with it)
+with ThreadPoolExecutor(max_workers=2) as _ex:
+    _fexe = _ex.submit(ck.build_cpp, "c18_harness", ["harness/C18/sv_harness.cpp"], FLAGS)
+    pr = ck.prove()
+    drv, dlog = ck.ocaml_driver("C18")
+    exe, log = _fexe.result()
 
 found = False
 stats = {"blocks_G": 0, "huge_blocks_unavailable": 0, "blocks_H": 0, "blocks_P": 0, "blocks_C": 0, "blocks_M": 0, "blocks_A": 0, "blocks_with_nullptr_view": 0,
